@@ -103,12 +103,12 @@ func runC16(c *core.Ctx) {
 			cs.DistinctN(n)
 		})
 	}
-	c.Exhaustive("Header value->octets: all P x count 0..255 x PT 0..255 (length boundaries)", 2*256*256)
+	c.Exhaustive("Header value->octets: all P x count 0..255 x PT 0..255 (12 lengths each, results overwritten and re-marshalled)", 2*256*256)
 	c.Section("header-values", 512, func(cs *core.Case) {
 		p := cs.Idx&1 == 1
 		cnt := uint8(cs.Idx >> 1)
 		for pt := 0; pt < 256; pt++ {
-			for _, l := range []uint16{0, 1, 0x7FFF, 0x8000, 0xFFFF, uint16(pt)<<8 | uint16(cnt)} {
+			for _, l := range []uint16{0, 1, 2, 3, 4, 5, 6, 7, 0x7FFF, 0x8000, 0xFFFF, uint16(pt)<<8 | uint16(cnt)} {
 				h := rtcp.Header{Padding: p, Count: cnt, Type: rtcp.PacketType(pt), Length: l}
 				out, err := h.Marshal()
 				if cnt > 31 {
@@ -123,10 +123,22 @@ func runC16(c *core.Ctx) {
 					cs.Fail("header/value-roundtrip", core.W{"header": vdump(h), "octets": mon.Hex(out, 8), "error": errStr(err), "decoded": vdump(d)})
 					return
 				}
+				// the four octets belong to the caller: it writes into them and appends to them (a
+				// packet encoder does exactly that); the same header marshals to the same octets again
+				first := [4]byte{out[0], out[1], out[2], out[3]}
+				for i := range out {
+					out[i] = out[i]*167 + 13
+				}
+				_ = append(out, 0xDE, 0xAD, 0xBE, 0xEF)
+				again, err2 := h.Marshal()
+				if err2 != nil || len(again) != 4 || [4]byte{again[0], again[1], again[2], again[3]} != first {
+					cs.Fail("header/result-not-caller-owned", core.W{"header": vdump(h), "first_octets": mon.Hex(first[:], 8), "after_caller_wrote_into_the_first_result": mon.Hex(again, 8), "error": errStr(err2)})
+					return
+				}
 			}
 		}
-		cs.Eval(2 * 6 * 256)
-		cs.DistinctN(6 * 256)
+		cs.Eval(3 * 12 * 256)
+		cs.DistinctN(12 * 256)
 		if cs.Idx == 0 {
 			for n := 0; n < 4; n++ {
 				var d rtcp.Header
